@@ -643,7 +643,7 @@ def guarded_map(fn: t.Callable[[t.Any], t.Any], items: t.Sequence[t.Any], per_it
     return results
 
 
-def guarded_events(rep: "Report", fn: t.Callable[[t.Any], t.Any], items: t.Sequence[t.Any], what: str, per_item: float = 4.0) -> t.List[t.Any]:
+def guarded_events(rep: "Report", fn: t.Callable[[t.Any], t.Any], items: t.Sequence[t.Any], what: str, per_item: float = 4.0, also_prop: str = "") -> t.List[t.Any]:
     """Events fn(item) for a trace specification.  A call that does not return within per_item seconds is not an event
     of this property's trace; it is recorded as a violation attributed to C18 (parsing cost)."""
     out = []
@@ -652,6 +652,8 @@ def guarded_events(rep: "Report", fn: t.Callable[[t.Any], t.Any], items: t.Seque
             rep.violation(f"evaluation-abandoned/{what}", f"too many calls of {what} did not return in time; the remaining inputs were not evaluated", {"first_unevaluated": str(item)[:500]}, prop="C18")
         elif isinstance(r, TimedOut):
             rep.violation(f"call-did-not-return/{what}", f"{what} did not return within {per_item} s for {str(item)[:200]!r}", {"item": str(item)[:2000]}, prop="C18")
+            if also_prop:  # e.g. C15: a parser that does not return is not total
+                rep.violation(f"call-did-not-return/{what}", f"{what} did not return within {per_item} s for {str(item)[:200]!r}", {"item": str(item)[:2000]}, prop=also_prop)
         elif isinstance(r, tuple) and len(r) == 3 and r[0] == "__exc__":
             raise MachineryError(f"driver failed on {str(item)[:100]!r}: {r[1]}: {r[2]}")
         else:
